@@ -2,6 +2,7 @@ SPEC = {
     "lean_modules": ["AM.Props.Registry", "AM.Props.C19", "AM.Props.C09"],
     "theorems": [
         "AM.Registry.targets_are_live_members", "AM.Registry.join_makes_member", "AM.Registry.leave_of_other_keeps_member", "AM.Registry.address_keyed_table_marks_live_peer_failed",
+        "AM.Registry.position_lt_of_lt", "AM.Registry.positions_distinct", "AM.Registry.table_position_collides",
         "AM.ConnPool.borrow_alive", "AM.ConnPool.inv_send", "AM.ConnPool.recovers_after_one_failure", "AM.ConnPool.delivered_stays_delivered", "AM.ConnPool.stale_entry_never_recovers",
         "AM.Frame.decode_stream", "AM.Frame.le32_decode", "AM.Frame.split_frames_interleave_breaks",
         "AM.Gossip.broadcast_routed_once", "AM.Gossip.broadcast_conservation", "AM.Gossip.oversize_reaches_every_peer",
@@ -19,13 +20,15 @@ SPEC = {
         {"name": "tlsframe", "pkg": "./tlsframe", "search_cases": 200, "timeout_quick": 300},
         # "a broadcast reaches every peer": memberlist transmits an update a bounded number of times, the rest of the fan-out is the
         # re-broadcast by every receiver whose Merge accepted it (C09's engine: what Silences.Merge hands back to its broadcast function)
-        {"name": "silmerge", "pkg": "./silmerge", "search_cases": 20000, "quick_cases": 1500, "only": ["merge_relays_accepted"]},
+        {"name": "silmerge", "pkg": "./silmerge", "search_cases": 20000, "quick_cases": 1500, "only": ["merge_relays_accepted", "full_state_superset"]},
     ],
     "rule": "gossip: two real cluster delegates (tagged export) over last-writer-wins test states with registries drawn from {sil,nfl},{sil},{nfl},{nfl,sil,xtra}; "
             "NotifyMsg with well-formed parts (known / unknown key, good / rejected payload) and arbitrary bytes; MergeRemoteState with 1-3 parts incl. rejected "
             "payloads before good ones, and arbitrary bytes; LocalState→MergeRemoteState exchanges; the real cluster.Channel with wrapped sizes 670-701 bytes "
             "around the 700 byte threshold, 0-2 peers, reliable sends held/released, a 204-message flood of the 200-slot oversize queue in 4% of the cases; "
-            "mesh: 2-3 real cluster.Peer on 127.0.0.1 with real silence.Silences and nflog.Log, small and oversized updates from every node, a late joiner. "
+            "mesh: 2-3 real cluster.Peer on 127.0.0.1 with real silence.Silences and nflog.Log, small and oversized updates from every node, a late joiner, a crash + restart on the same address (random name / a name that sorts first; every node's Position() against the member names it sees), "
+            "and beside them one re-dial case: B configured with no peers, A with B and reconnect disabled, B crashes, is declared dead, A takes updates, a new B starts on the address knowing nobody — A's periodic refresh (15 s, fixed) must join it again within two refresh intervals. "
+            "silmerge full_state_superset: after a full-state push the receiver holds, for every id of the sender not past retention (ended ones included), a version at least as new. "
             "silmerge (C09's engine, predicate merge_relays_accepted only): after every Silences.Merge of a non-oversized message the number of calls of the broadcast function is at least the number of records that changed the state (new ids and newer versions of known ids alike). "
             "non-trivial = hits a tagged branch",
     "assumptions": [
